@@ -15,7 +15,7 @@ import os
 
 import numpy as np
 
-from .. import core, editwalk, env, gen, shape, specs
+from .. import core, editwalk, env, gen, kdriver, shape, specs
 from .. import tdfref as R
 
 PROP = "C06"
@@ -359,7 +359,92 @@ def capture_shard(_):
     return acc
 
 
+def foreign_table_shard(_):
+    """Entries the library rewrites but does not own: a file from other software whose unused slots each
+    carry their own dates and comment (a slot freed at some time keeps them).  After add / remove /
+    replace by the library every unused slot on disk still is a layout-conformant entry with *its own*
+    dates and comment, offset = end of data, size 0 - what a layout-driven encoder writes for the table the
+    library holds."""
+    acc = core.Acc()
+    n = specs.lib()
+    tmp = env.scratch_dir("c06t")
+    path = os.path.join(tmp, "t.tdf")
+    BT = n.block.BlockType
+    for N in (3, 5, 14):
+        for nlive in (0, 1, 2):
+            if nlive >= N:
+                continue
+            recs = [kdriver.known_record(R.T_EVENTS, 0), kdriver.opaque_record(2)][:nlive]
+            base = bytearray(R.build_file(N, recs))
+            own = {}
+            for k in range(nlive, N):   # give every unused slot its own dates and comment
+                p0 = R.parse_file(bytes(base))["entries"][k]
+                own[k] = (1_300_000_000 + 100 * k, 1_300_000_001 + 100 * k, f"freed slot {k} \xe9")
+                base[R.HEADER + R.ENTRY * k: R.HEADER + R.ENTRY * (k + 1)] = R.build_entry(
+                    0, 0, p0["offset"], 0, own[k][0], own[k][1], 1_300_000_002 + 100 * k, own[k][2])
+            histories = [[("add", R.T_EMG)], [("add", R.T_EMG), ("add", R.T_DATA3D)], [("add", R.T_EMG), ("remove", R.T_EMG)]]
+            if nlive:
+                histories += [[("replace", R.T_EVENTS)], [("remove", R.T_EVENTS)], [("remove", R.T_EVENTS), ("add", R.T_EVENTS)]]
+            for hist in histories:
+                if sum(1 for o in hist if o[0] == "add") + nlive > N:
+                    continue
+                acc.n["states"] += 1
+                acc.n["evaluations"] += 1
+                acc.n["nontrivial"] += 1
+                acc.n["transitions"] += len(hist)
+                with open(path, "wb") as f:
+                    f.write(bytes(base))
+                wit = {"foreign_table": [N, nlive, [list(o) for o in hist]]}
+                desc = f"{N} slots, {nlive} live, unused slots with own dates/comments; {[o[0] + ' ' + R.NAMES[o[1]] for o in hist]}"
+                try:
+                    with n.tdf.Tdf(path).allow_write() as f:
+                        for op, t in hist:
+                            if op == "add":
+                                f.add_block(kdriver.make_block(t, 0))
+                            elif op == "remove":
+                                f.remove_block(BT(t))
+                            else:
+                                f.replace_block(kdriver.make_block(t, 1))
+                except Exception as e:  # noqa: BLE001
+                    acc.violation("valid-op-refused", f"{PROP}:foreign-table:raises:{type(e).__name__}", wit, f"{desc}: {type(e).__name__}: {e}")
+                    continue
+                data = open(path, "rb").read()
+                try:
+                    p = R.parse_file(data)
+                except R.LayoutError as e:
+                    acc.violation("unparsable", f"{PROP}:foreign-table:unparsable", wit, f"{desc}: {e}")
+                    continue
+                end = max([R.HEADER + R.ENTRY * N] + [e["offset"] + e["size"] for e in p["entries"] if e["type"] != 0])
+                unused = [e for e in p["entries"] if e["type"] == 0]
+                # the original unused slots keep their order; slots freed by a removal are appended after them
+                bad = None
+                orig = [own[k] for k in sorted(own)]
+                for i, e in enumerate(unused):
+                    if e["size"] != 0 or e["offset"] != end:
+                        bad = f"unused slot #{i} has offset {e['offset']} size {e['size']} (end of data {end})"
+                        break
+                got = [(e["ctime"], e["mtime"], e["comment"]) for e in unused]
+                if bad is None:
+                    # every original slot that was not consumed must still be there, unchanged, in order
+                    want_tail = [o for o in orig if o in got]
+                    pos = [got.index(o) for o in want_tail]
+                    nadds = sum(1 for o in hist if o[0] == "add" or o[0] == "replace")
+                    expected_min = max(0, len(orig) - nadds)
+                    if len(want_tail) < expected_min or pos != sorted(pos):
+                        bad = (f"unused slots on disk carry {got[:4]}{'...' if len(got) > 4 else ''}; at least the last {expected_min} of the original "
+                               f"slots {orig[-expected_min:][:3] if expected_min else []} must survive with their own dates and comments")
+                if bad:
+                    acc.violation("foreign-unused-slot-rewritten", f"{PROP}:foreign-table:unused-slot:{hist[-1][0]}", wit, f"{desc}: {bad}")
+                else:
+                    acc.outcomes["foreign-table:unused-slots-kept"] += 1
+                    acc.n["traces"] += 1
+    acc.sample({"foreign tables": "3 / 5 / 14 slots, 0-2 live, each unused slot with its own dates and comment; add / remove / replace histories"}, 1)
+    return acc
+
+
 def _shard(shard):
+    if shard == "foreign_table":
+        return foreign_table_shard(shard)
     if shard == "capture":
         return capture_shard(shard)
     if shard == "container":
@@ -371,7 +456,7 @@ def _shard(shard):
 
 def run(tier):
     _shard.tier = tier
-    acc = core.pmap(__name__, "_shard", ["capture", "container", "fullwidth"] + shape.shards())
+    acc = core.pmap(__name__, "_shard", ["capture", "container", "fullwidth", "foreign_table"] + shape.shards())
     acc.merge(core.pmap("mc.editwalk", "run_shard", editwalk.shards(PROP, tier)))
     return acc
 
@@ -379,7 +464,9 @@ def run(tier):
 def replay(w):
     if w.get("editwalk"):
         return editwalk.replay(w)
-    if "fullwidth" in w:
+    if "foreign_table" in w:
+        acc = foreign_table_shard(None)
+    elif "fullwidth" in w:
         acc = fullwidth_shard(None)
     elif "capture_block" in w or "capture_entry" in w:
         acc = capture_shard(None)
